@@ -655,6 +655,22 @@ def construct(w):
         with open(path, "rb") as f:
             w.image = cls.from_url(SERVER.url(name, f.read()))
         w.flags.add("url")
+        if case.get("sibling_url", True):
+            # a second image from another URL with the same file name but other content is open for a while: each URL
+            # image has its own private copy
+            import io as _io
+
+            buf = _io.BytesIO()
+            PILImage.new("RGB", (3, 2), (9, 99, 199)).save(buf, "PNG")
+            sib = cls.from_url(SERVER.url("other/" + name, buf.getvalue()))
+            n_tmp = len(os.listdir(C._TEMP_DIR))
+            sib.close()
+            if n_tmp != 2:
+                w.fail(f"two URL images with the same file name are open and the library's temp dir holds {n_tmp} file(s)",
+                       "temp_file", at="sibling URL image", want=2)
+            if len(os.listdir(C._TEMP_DIR)) != 1:
+                w.fail(f"after closing the second URL image the temp dir holds {os.listdir(C._TEMP_DIR)}", "temp_file",
+                       at="sibling URL image closed", want=1)
     elif kind == "pil_mem":
         w.pil = gen.build_image(src["image"])
         w.image = cls(w.pil)
